@@ -298,13 +298,103 @@ static void run_C08(const Args &a, long cs) {
 	unlink(path.c_str()); unlink(crash.c_str());
 }
 
+// ================================================================ C08sys: the same property one layer further down
+// The unmodified writer (no interposition armed, real glibc stdio) runs in a child process under `strace -e inject=`: one system call on the file being
+// written fails (ENOSPC/EIO, once or from then on), or the process is killed on entering it (a real crash state on the real file system).
+// The child's exit status is the writer's verdict; the parent reads the file back.
+struct SysOp { std::string name; long ordinal; bool creat; };
+static const char *SYS_TRACE = "openat,write,pwrite64,writev,lseek,close,ftruncate,fsync,fdatasync,unlink,rename";
+struct SysRun { int status = -1; bool killed = false; int sig = 0; bool injected = false; std::vector<SysOp> ops; std::string injected_line; };
+static SysRun sys_run(const std::string &inject, const std::string &in, const std::string &outp, const std::string &log, const char *api) {
+	SysRun R; unlink(log.c_str());
+	std::string cmd = std::string("strace -o ") + log + " -e trace=" + SYS_TRACE + (inject.empty() ? "" : " -e inject=" + inject) + " /proc/" + std::to_string(getpid()) + "/exe C08child " + in + " " + outp + " " + api + " >/dev/null 2>&1";
+	int rc = system(cmd.c_str()); (void)rc;
+	FILE *f = fopen(log.c_str(), "r"); if (!f) return R;
+	char line[4096]; std::map<std::string, long> cnt; int outfd = -1;
+	while (fgets(line, sizeof line, f)) {
+		std::string L = line; while (!L.empty() && (L.back() == '\n' || L.back() == '\r')) L.pop_back();
+		if (L.compare(0, 3, "+++") == 0) { if (L.find("exited with") != std::string::npos) R.status = atoi(L.c_str() + L.find("exited with") + 12); else if (L.find("killed by") != std::string::npos) { R.killed = true; R.sig = L.find("SIGKILL") != std::string::npos ? 9 : L.find("SIGSEGV") != std::string::npos ? 11 : L.find("SIGABRT") != std::string::npos ? 6 : L.find("SIGBUS") != std::string::npos ? 7 : 99; } continue; }
+		if (L.compare(0, 3, "---") == 0) continue;
+		size_t par = L.find('('); if (par == std::string::npos) continue; std::string name = L.substr(0, par); long ord = ++cnt[name];
+		bool onout = false; bool creat = false;
+		if (name == "openat" || name == "unlink" || name == "rename") { if (L.find("\"" + outp + "\"") != std::string::npos) { onout = true; if (name == "openat") { creat = L.find("O_CREAT") != std::string::npos; size_t eq = L.rfind(") = "); if (eq != std::string::npos) { int fd = atoi(L.c_str() + eq + 4); if (fd >= 0 && L.find("(INJECTED)") == std::string::npos) outfd = fd; } } } }
+		else { int fd = atoi(L.c_str() + par + 1); if (outfd >= 0 && fd == outfd) { onout = true; if (name == "close" && L.find("(INJECTED)") == std::string::npos) outfd = -1; } }
+		if (onout) { R.ops.push_back({name, ord, creat}); if (L.find("(INJECTED)") != std::string::npos || (L.find("= ?") != std::string::npos)) { R.injected = true; R.injected_line = L.substr(0, 160); } }
+	}
+	fclose(f); unlink(log.c_str());
+	return R;
+}
+static void run_C08sys(const Args &a, long cs) {
+	Rng r(a.seed, "C08sys", cs);
+	Spec s = sized_spec(r, (int)cs);
+	Table T; if (!load(T, s)) { viol("C08:load:well-formed-table-rejected", s.full_json()); return; }
+	std::string base = g_tmp + "/sys." + std::to_string(getpid()), in = base + ".in.fits", outp = base + ".out.fits", log = base + ".strace";
+	{ Bytes b = mkfits(s); bool ok = write_file(in, (const unsigned char *)b.p, b.n); free(b.p); if (!ok) { note("syscall-level:could-not-write-input"); return; } }
+	const char *api = r.coin(0.25) ? "c" : "cpp";
+	unlink(outp.c_str());
+	phase("syscall-level: baseline run under strace");
+	SysRun B0 = sys_run("", in, outp, log, api);
+	if (B0.status != 0 || B0.ops.empty()) { note("syscall-level:baseline-run-failed(strace-unavailable?)"); fprintf(stderr, "C08sys: baseline status=%d ops=%zu\n", B0.status, B0.ops.size()); unlink(in.c_str()); unlink(outp.c_str()); return; }
+	if (try_load(outp, T) != 1) { viol("C08:write_fits(syscall-level):complete-file-does-not-read-back-equal", s.full_json()); return; }
+	count("syscall-level:tables"); count("syscall-level:system-calls-on-the-file", (long)B0.ops.size()); for (auto &o : B0.ops) count("syscall-level:calls:" + o.name);
+	// fault list
+	struct Fault { size_t op; std::string spec, label; bool crash; };
+	std::vector<Fault> fl;
+	for (size_t i = 0; i < B0.ops.size(); i++) { const SysOp &o = B0.ops[i]; std::string w = ":when=" + std::to_string(o.ordinal);
+		if (o.name == "write" || o.name == "pwrite64" || o.name == "writev") {
+			// a write directly followed by an lseek is stdio flushing its buffer inside fseek: its failure surfaces as a failed seek, not as a failed fwrite
+			std::string ln = o.name + ((i + 1 < B0.ops.size() && B0.ops[i + 1].name == "lseek") ? "(flush-inside-fseek)" : "");
+			fl.push_back({i, o.name + ":error=ENOSPC" + w, ln + ":ENOSPC", false}); fl.push_back({i, o.name + ":error=EIO" + w + "+", ln + ":EIO-persistent", false}); fl.push_back({i, o.name + ":signal=KILL" + w, ln + ":killed", true}); }
+		else if (o.name == "lseek" || o.name == "ftruncate" || o.name == "fsync" || o.name == "fdatasync") { fl.push_back({i, o.name + ":error=EIO" + w, o.name + ":EIO", false}); fl.push_back({i, o.name + ":signal=KILL" + w, o.name + ":killed", true}); }
+		else if (o.name == "close") { fl.push_back({i, o.name + ":error=EIO" + w, "close:EIO", false}); fl.push_back({i, o.name + ":error=ENOSPC" + w, "close:ENOSPC", false}); fl.push_back({i, o.name + ":signal=KILL" + w, "close:killed", true}); }
+		else if (o.name == "openat") { fl.push_back({i, o.name + ":error=" + (o.creat ? "ENOSPC" : "EMFILE") + w, o.creat ? "openat(create):ENOSPC" : "openat(readonly):EMFILE", false}); }
+		else if (o.name == "unlink" || o.name == "rename") { fl.push_back({i, o.name + ":error=EACCES" + w, o.name + ":EACCES", false}); }
+	}
+	size_t budget = a.tier == "thorough" ? 90 : 14;
+	std::vector<size_t> pick(fl.size()); std::iota(pick.begin(), pick.end(), 0); for (size_t i = pick.size(); i > 1; i--) std::swap(pick[i - 1], pick[r.below(i)]);
+	// 60% of the budget for faults on write calls, the rest for the other calls (unused share goes to the other group)
+	{ std::vector<size_t> wq, oq; for (size_t q : pick) (fl[q].label.compare(0, 5, "write") == 0 || fl[q].label.compare(0, 6, "pwrite") == 0 ? wq : oq).push_back(q);
+	  size_t nw_ = std::min(wq.size(), budget * 6 / 10), no_ = std::min(oq.size(), budget - nw_); nw_ = std::min(wq.size(), budget - no_);
+	  pick.assign(wq.begin(), wq.begin() + nw_); pick.insert(pick.end(), oq.begin(), oq.begin() + no_); }
+	for (size_t q : pick) {
+		const Fault &F = fl[q]; unlink(outp.c_str());
+		std::string ctx = "{\"inject\":" + jstr(F.spec) + ",\"api\":" + jstr(api) + ",\"call_index_on_file\":" + std::to_string(F.op) + ",\"of\":" + std::to_string(B0.ops.size()) + ",\"table\":" + s.brief() + "}";
+		context(ctx); phase("syscall-level: faulted run under strace");
+		SysRun R = sys_run(F.spec, in, outp, log, api);
+		count("syscall-level:runs");
+		if (!R.injected) { count("syscall-level:fault-did-not-fire"); continue; }
+		count("syscall-level:faults-fired"); count("syscall-level:fired:" + F.label);
+		distinct(hash_mix(hash_str(F.spec), s.hash()));
+		std::string what; int ld = try_load(outp, T, &what); struct stat st; bool exists = stat(outp.c_str(), &st) == 0;
+		std::string dj = "{\"fault\":" + ctx + ",\"child_status\":" + std::to_string(R.status) + ",\"killed_by\":" + std::to_string(R.sig) + ",\"file_exists\":" + (exists ? "true" : "false") + ",\"file_size\":" + std::to_string(exists ? (long)st.st_size : -1) + ",\"readback\":" + (ld == 0 ? "\"rejected-or-missing\"" : ld == 1 ? "\"equal\"" : "\"DIFFERENT\"") + ",\"injected_call\":" + jstr(R.injected_line) + "}";
+		if (R.killed && R.sig == 9 && F.crash) { count("syscall-level:crash-states"); count(ld == 0 ? (exists ? "syscall-level:crash-states-rejected" : "syscall-level:crash-states-no-file") : ld == 1 ? "syscall-level:crash-states-load-equal" : "syscall-level:crash-states-load-DIFFERENT"); if (ld == 2) viol("C08:write_fits(syscall-level):crash-state-loads-as-a-different-table:at=" + F.label, dj); continue; }
+		if (R.killed || (R.status != 0 && R.status != 3)) { viol("C08:write_fits(syscall-level):writer-died:status=" + std::to_string(R.status) + ":signal=" + std::to_string(R.sig) + ":fault=" + F.label, dj); continue; }
+		if (R.status == 0) { count("syscall-level:writes-reporting-success-despite-fault"); if (ld != 1) viol("C08:write_fits(syscall-level):reported-success-but-file-does-not-read-back-equal:fault=" + F.label, dj); else count("syscall-level:success-and-file-reads-back-equal"); }
+		else { count("syscall-level:writes-reporting-failure"); count(exists ? "syscall-level:failed-write-left-a-file" : "syscall-level:failed-write-left-no-file"); if (ld == 2) viol("C08:write_fits(syscall-level):failed-write-left-a-file-that-loads-as-a-different-table:fault=" + F.label, dj); }
+		if (q % 7 == 0) sample(dj);
+	}
+	unlink(in.c_str()); unlink(outp.c_str());
+}
+
+// child of the syscall-level pass: plain library use, no interposed faults; the verdict of the writer is the exit status (0 = reported success, 3 = threw)
+static int child_main(int argc, char **argv) {
+	if (argc < 5) _exit(2);
+	std::string in = argv[2], outp = argv[3], api = argv[4];
+	Table T; try { T.read_fits(in); } catch (std::exception &e) { _exit(4); }
+	if (api == "c") { splinetable h; h.data = &T; int rc = writesplinefitstable(outp.c_str(), &h); _exit(rc == 0 ? 0 : 3); }
+	try { T.write_fits(outp); } catch (std::exception &e) { _exit(3); } catch (...) { _exit(5); }
+	_exit(0);
+}
+
 int main(int argc, char **argv) {
+	if (argc >= 2 && !strcmp(argv[1], "C08child")) return child_main(argc, argv);
 	Args a = parse_args(argc, argv);
 	open_out(a.outpath);
 	g_tmp = a.tmpdir;
 	for (long cs = a.from; cs < a.to; cs++) {
 		begin_case(cs);
 		if (a.prop == "C08") run_C08(a, cs);
+		else if (a.prop == "C08sys") run_C08sys(a, cs);
 		else { fprintf(stderr, "unknown mode %s\n", a.prop.c_str()); return 2; }
 	}
 	finish();
